@@ -11,7 +11,7 @@
 (*    sortval   r = T.sort(col = L, ...)     (L caller-owned list OBJECTS, reused and edited)  *)
 (*    listsort  r = sort(L) | sorted(L, key = Cmp)     (a new list object)                     *)
 (*    setcol    the caller replaces / edits a column of a table - an original or a RESULT -    *)
-(*              in place: T[col] = vals | T.col = vals | T.col[pos] = v                         *)
+(*              in place: T[col] = vals | T.col = vals | T.update({col: vals}) | T.col[pos] = v *)
 (*    setlst    the caller edits a list object in place (L[:] = vals)                          *)
 (* Law: the outcome of every call is the single-call law applied to the operands AS THEY ARE   *)
 (* AT THAT MOMENT; no call changes an object that exists already; the caller's edit of one      *)
@@ -104,15 +104,19 @@ Calls(S) == {st \in {SortStep(t, b) : t \in 1..Len(S.tabs), b \in Bys}
                     \cup {SortFnStep(t, f) : t \in 1..Len(S.tabs), f \in Fns}
                     \cup {SortValStep(t, o) : t \in 1..Len(S.tabs), o \in {o \in OrdChoices(S) : OrdOK(o)}}
                     \cup {ListSortStep(l, h) : l \in ValueLists(S), h \in {"sort", "Cmp"}} : Enabled(S, st)}
-\* the caller's edits: a column reversed by item / attribute assignment, its first element raised above and its
-\* last element lowered below everything (element assignment into the column the table holds); a list reversed,
+\* the caller's edits: a column reversed (item assignment), rotated (attribute assignment), re-typed (every int replaced by the
+\* equal float and the other way round, through update: the table is equal by == and differs by type), its first element raised
+\* above and its last element lowered below everything (element assignment into the column the table holds); a list reversed,
 \* shortened, or grown by a value
 EditHi == VInt(9)
 EditLo == VInt(-9)
+Retype(v) == IF Tag(v) = "i" THEN VFlt(Pay(v), 1) ELSE IF Tag(v) = "f" /\ Pay(v)[2] = 1 THEN VInt(Pay(v)[1]) ELSE v
+Rotate(s) == IF s = <<>> THEN s ELSE Append(Tail(s), Head(s))
 ColEdits(S, t, c) ==
-    LET cur == ColVals(S, t, c)  n == Len(cur) IN
-    {SetColStep(t, c, h, Reverse(cur), 0) : h \in {"item", "attr"}}
-    \cup {SetColStep(t, c, "elem", [cur EXCEPT ![1] = EditHi], 1), SetColStep(t, c, "elem", [cur EXCEPT ![n] = EditLo], n)}
+    LET cur == ColVals(S, t, c)  n == Len(cur)  re == [i \in 1..n |-> Retype(cur[i])] IN
+    {SetColStep(t, c, "item", Reverse(cur), 0), SetColStep(t, c, "attr", Rotate(cur), 0),
+     SetColStep(t, c, "update", IF re # cur THEN re ELSE Reverse(cur), 0),
+     SetColStep(t, c, "elem", [cur EXCEPT ![1] = EditHi], 1), SetColStep(t, c, "elem", [cur EXCEPT ![n] = EditLo], n)}
 ListEdits(S, l) == LET cur == S.lsts[l] IN
     {SetLstStep(l, v) : v \in {Reverse(cur), IF cur = <<>> THEN <<>> ELSE Tail(cur), Append(cur, EditLo)}}
 Edits(S) == {st \in UNION {UNION {ColEdits(S, t, c) : c \in {"a", "b"} \cap ColsOf(S, t)} : t \in 1..Len(S.tabs)}
